@@ -46,6 +46,7 @@ func ruleC18_1(c *Ctx) {
 	}
 	seen := map[string]int{}
 	containerRe := regexp.MustCompile(`^p0\.(Steps|Inspect)$`)
+	elemRe := regexp.MustCompile(`^p0\.(Steps|Inspect)\[\*\](\.SupplyChainItem)?$`)
 	// Two styles are recognised. (A) the list is replaced by a copy of itself and the fields of its elements are
 	// assigned in place. (B) a fresh list of the same length is filled, at the range index, with a local copy of the
 	// element whose fields were assigned. In (B) the local copy is an "element alias" of layout.Steps[i] / layout.Inspect[i].
@@ -211,7 +212,15 @@ func ruleC18_1(c *Ctx) {
 		}
 		for j, a := range call.Common().Args {
 			list := org(a)
-			if !containerRe.MatchString(list) || j >= len(g.Params) {
+			// a pointer to one element (or to its embedded SupplyChainItem) handed to a per-element helper: the loop
+			// is the caller's
+			perElem := elemRe.MatchString(list) && j < len(g.Params)
+			if perElem {
+				if _, isPtr := a.Type().Underlying().(*types.Pointer); !isPtr {
+					perElem = false
+				}
+			}
+			if !perElem && (!containerRe.MatchString(list) || j >= len(g.Params)) {
 				continue
 			}
 			prm := fmt.Sprintf("p%d", j)
@@ -238,12 +247,29 @@ func ruleC18_1(c *Ctx) {
 					}
 					seen[o]++
 					pc, idx := producer(st.Val, st)
-					okVal := pc != nil && idx == 0 && calleeName(pc) == helper && len(pc.Common().Args) > 1 && sameElement(st.Addr, pc.Common().Args[1])
+					okVal := pc != nil && idx == 0 && calleeName(pc) == helper && len(pc.Common().Args) > 1 && (perElem || sameElement(st.Addr, pc.Common().Args[1]))
 					if okVal {
 						ao, _ := tr(org(pc.Common().Args[1]))
 						okVal = ao == o
 					}
 					c.check(okVal, R, fname(g), "assignment to "+o, st.Pos(), helper+"(replacer, same field of the same element)", "assigned value is "+short(org(st.Val))+", not the substitution of this very field")
+					if perElem {
+						okVal2 := pc != nil && idx == 0 && calleeName(pc) == helper && len(pc.Common().Args) > 1
+						if okVal2 {
+							ao, _ := tr(org(pc.Common().Args[1]))
+							okVal2 = ao == o
+						}
+						_ = okVal2
+						c.check(wholeSliceIndex(a), R, fn, "loop over the whole list for "+o, call.Pos(), "the element handed to "+fname(g)+" is indexed by the range-index induction variable", "the element index is not the induction variable of a range over the whole list")
+						unconditional := true
+						for _, r := range returnsOf(g) {
+							if !instrDominates(st, r) {
+								unconditional = false
+							}
+						}
+						c.check(everyIteration(findIndex(a), call) && unconditional, R, fn, "assignment to "+o+" happens for every element", call.Pos(), "the call lies on every path through the loop body and the helper assigns unconditionally", "the field is not assigned for every element: some steps / inspections are skipped (their markers stay unsubstituted)")
+						continue
+					}
 					c.check(wholeSliceIndex(st.Addr), R, fname(g), "loop over the whole list for "+o, st.Pos(), "element index is the range-index induction variable", "the element index is not the induction variable of a range over the whole list")
 					c.check(everyIteration(findIndex(st.Addr), st), R, fname(g), "assignment to "+o+" happens for every element", st.Pos(), "the assignment lies on every path through the loop body", "the field is not assigned for every element: some steps / inspections are skipped (their markers stay unsubstituted)")
 				}
@@ -378,6 +404,8 @@ func ruleC18_2(c *Ctx) {
 	if f == nil {
 		return
 	}
+	f, dictIdx, _ := c.replacerFrame(f)
+	dict := fmt.Sprintf("p%d", dictIdx)
 	fn := fname(f)
 	var appends []*ssa.Call
 	for _, call := range callsIn(f, "builtin:append") {
@@ -411,9 +439,39 @@ func ruleC18_2(c *Ctx) {
 		if !ok || calleeName(a1) != "builtin:append" {
 			continue
 		}
-		if elem(a1) == `((const("{")+key(p1))+const("}"))` && elem(a2) == "p1{*}" {
+		if elem(a1) == `((const("{")+key(`+dict+`))+const("}"))` && elem(a2) == dict+"{*}" {
 			okPair = true
 			c.ok(R, fn, "pair (\"{\"+name+\"}\", value), old before new", a2.Pos(), elem(a1)+" , "+elem(a2))
+		}
+	}
+	// one append of both: append(list, "{"+name+"}", value)
+	if !okPair {
+		for _, a := range appends {
+			var both []string
+			derives(a.Call.Args[1], func(v ssa.Value) bool {
+				if al, ok := v.(*ssa.Alloc); ok && al.Comment == "varargs" {
+					vals := map[int64]string{}
+					for _, r := range *al.Referrers() {
+						if ia, ok := r.(*ssa.IndexAddr); ok {
+							i, _ := constInt(ia.Index)
+							for _, rr := range *ia.Referrers() {
+								if st, ok := rr.(*ssa.Store); ok {
+									vals[i] = org(st.Val)
+								}
+							}
+						}
+					}
+					if len(vals) == 2 {
+						both = []string{vals[0], vals[1]}
+					}
+					return true
+				}
+				return false
+			}, false)
+			if len(both) == 2 && both[0] == `((const("{")+key(`+dict+`))+const("}"))` && both[1] == dict+"{*}" {
+				okPair = true
+				c.ok(R, fn, "pair (\"{\"+name+\"}\", value), old before new", a.Pos(), both[0]+" , "+both[1])
+			}
 		}
 	}
 	if !okPair {
@@ -489,6 +547,19 @@ func ruleC18_3(c *Ctx) {
 	if f == nil {
 		return
 	}
+	outer := f
+	f, dictIdx, via := c.replacerFrame(f)
+	dict := fmt.Sprintf("p%d", dictIdx)
+	if via != nil {
+		// the helper's error (an invalid name) fails SubstituteParameters
+		okErr := false
+		if e := errResult(via); e != nil {
+			for _, br := range errBranches(e) {
+				okErr = okErr || c.failing(br.NonNil)
+			}
+		}
+		c.check(okErr, R, fname(outer), "an error of "+fname(f)+" fails the substitution", via.Pos(), "non-nil side is a failing continuation", "the error of the helper that validates the parameter names is not propagated")
+	}
 	fn := fname(f)
 	var match ssa.CallInstruction
 	for _, call := range callsIn(f, "(*regexp.Regexp).MatchString", "regexp.MatchString") {
@@ -502,7 +573,7 @@ func ruleC18_3(c *Ctx) {
 	isConst := false
 	if calleeName(match) == "regexp.MatchString" {
 		pat, isConst = constString(match.Common().Args[0])
-	} else if mc, ok := resolve(match.Common().Args[0], match).(*ssa.Call); ok {
+	} else if mc := regexpCompileOf(resolve(match.Common().Args[0], match)); mc != nil {
 		pat, isConst = constString(mc.Call.Args[0])
 	}
 	same := false
@@ -515,7 +586,7 @@ func ruleC18_3(c *Ctx) {
 	}
 	c.check(isConst && same, R, fn, "constant pattern equals ^[a-zA-Z0-9_-]+$", match.Pos(), pat, fmt.Sprintf("parameter-name pattern %q (constant=%v) differs from the documented ^[a-zA-Z0-9_-]+$", pat, isConst))
 	nameArg := match.Common().Args[len(match.Common().Args)-1]
-	c.check(org(nameArg) == "key(p1)", R, fn, "the matched string is the dictionary key", match.Pos(), "key(p1)", "matched string is "+org(nameArg))
+	c.check(org(nameArg) == "key("+dict+")", R, fn, "the matched string is the dictionary key", match.Pos(), "key("+dict+")", "matched string is "+org(nameArg))
 	okFail := false
 	mv := resultN(match, 0)
 	if mv != nil {
@@ -530,7 +601,7 @@ func ruleC18_3(c *Ctx) {
 	if nr := firstCall(f, "strings.NewReplacer"); nr != nil {
 		okAll := false
 		for _, l := range mapLoops(f) {
-			if l.rng.X == ssa.Value(f.Params[1]) {
+			if l.rng.X == ssa.Value(f.Params[dictIdx]) {
 				if okv := extractOf(l.next, 0); okv != nil && c.condAt(okv, false, nr.Block()) {
 					okAll = true
 				}
@@ -549,7 +620,8 @@ func ruleC18_4(c *Ctx) {
 		c.undecided(R, "in_toto.SubstituteParameters", "anchors", 0, "SubstituteParameters or its helpers not found")
 		return
 	}
-	nrs := callsIn(f, "strings.NewReplacer")
+	rf, _, _ := c.replacerFrame(f)
+	nrs := callsIn(rf, "strings.NewReplacer")
 	inLoop := false
 	for _, nr := range nrs {
 		if reaches(nr.Block(), nr.Block()) {
@@ -718,4 +790,24 @@ func ruleC18_7(c *Ctx) {
 		}
 	}
 	c.ok(R, fname(root), "struct literals in the substitution code scanned", root.Pos(), fmt.Sprintf("%d functions, %d literals of metadata types", len(fns), n))
+}
+
+// replacerFrame: the function that builds the strings.Replacer from the dictionary: SubstituteParameters itself, or an
+// unexported helper it hands the dictionary to. dict is the index of the dictionary parameter in that function.
+func (c *Ctx) replacerFrame(f *ssa.Function) (fr *ssa.Function, dict int, via ssa.CallInstruction) {
+	if len(callsIn(f, "strings.NewReplacer")) > 0 || len(f.Params) < 2 {
+		return f, 1, nil
+	}
+	for _, call := range allCalls(f) {
+		h := call.Common().StaticCallee()
+		if !c.isStageHelper(h) || len(callsIn(h, "strings.NewReplacer")) == 0 {
+			continue
+		}
+		for j, a := range call.Common().Args {
+			if resolve(a, call) == ssa.Value(f.Params[1]) && j < len(h.Params) {
+				return h, j, call
+			}
+		}
+	}
+	return f, 1, nil
 }
